@@ -60,7 +60,9 @@ def main():
     # the scheduler writes <name>.pid right after spawning; do not start before it is there
     pidfile = os.path.splitext(script)[0] + ".pid"
     t0 = time.time()
-    while not os.path.exists(pidfile) and time.time() - t0 < 20:
+    while not os.path.exists(pidfile):
+        if time.time() - t0 > 60:
+            os._exit(97)  # the launching side never wrote the pid file: harness failure, not an observation
         time.sleep(0.002)
 
     import experimaestro.run as xrun
